@@ -110,8 +110,20 @@ def generate(seed, run, tier):
     edits = []
     for _ in range(rs.choice([0, 0, 1, 2, 4, 10])):
         k = rq.choice(["new_block", "add_change", "add_change", "package", "version",
-                       "distributions", "urgency", "author", "date"])
+                       "distributions", "urgency", "author", "date", "block_set", "block_set",
+                       "block_add_change"])
         e = {"op": k}
+        if k == "block_set":
+            attr = rq.choice(["package", "version", "distributions", "urgency", "author", "date"])
+            e.update(i=rq.randrange(4), attr=attr,
+                     val=rq.choice({"package": PKGS, "version": VERS, "distributions": DISTS,
+                                    "urgency": URG[:4], "author": AUTH, "date": DATES}[attr]))
+            edits.append(e)
+            continue
+        if k == "block_add_change":
+            e.update(i=rq.randrange(4), val=rq.choice(CHANGES))
+            edits.append(e)
+            continue
         if k == "new_block":
             full = rq.random() < 0.7
             e["args"] = {"package": rq.choice(PKGS), "version": rq.choice(VERS),
@@ -121,6 +133,10 @@ def generate(seed, run, tier):
             if not full:
                 for drop in rq.sample(sorted(e["args"]), rq.randint(1, 3)):
                     del e["args"][drop]
+            if rq.random() < 0.2 and "urgency" in e["args"]:
+                e["args"]["urgency_comment"] = " (HIGH for users of x)"
+            if rq.random() < 0.2:
+                e["args"]["other_pairs"] = {"binary-only": "yes"}
         elif k == "add_change":
             e["val"] = rq.choice(CHANGES)
         else:
@@ -277,6 +293,10 @@ def execute(case):
                 c.new_block(**e["args"])
             elif len(c) == 0:
                 continue
+            elif op == "block_set":
+                setattr(c[e["i"] % len(c)], e["attr"], e["val"])
+            elif op == "block_add_change":
+                c[e["i"] % len(c)].add_change(e["val"])
             elif op == "add_change":
                 c.add_change(e["val"])
             elif op == "version":
